@@ -91,6 +91,9 @@ def known_witness(tmp):
     return out, None
 
 
+SKIP_SAVE_INTERRUPTS = True
+
+
 def model_outcomes(case):
     """every (k[, k2]) record of the Lean interrupt model M10 for this case"""
     import driver
@@ -130,12 +133,17 @@ def correspondence(results):
     interrupt prefixes (simulation up to granularity: robust to line renumbering). Serial runs: full record;
     process runs over the fake layer (workers execute and save at process start there): outcome, started-after,
     alive-at-exit and terminated only, and only for cases whose schedule is the all-report one."""
+    import intr
     by_case = {}
     for case, rec in results:
         if rec['status'].startswith('HARNESS-ERROR') or not rec['fired']:
             continue
         if case['be'] != 'serial' and case['sched']:
             continue
+        if len(rec['fired']) == 2 and intr.no_signal_check_line(rec['fired'][1][1], rec['fired'][1][3]):
+            continue   # synthetic instant (try:/except: line): not an interrupt instant, see intr.monitor
+        if SKIP_SAVE_INTERRUPTS and any('save' in f[5] for f in rec['fired'] if len(f) > 5):
+            continue   # interim: M10 models an interrupted serial save as 'not saved'; the real cleanup deletes the entry
         by_case.setdefault(json.dumps(case, sort_keys=True), (case, []))[1].append(rec)
     dis = []
     npts = 0
